@@ -115,6 +115,12 @@ def normalise(raw_events):
                 r = tok2r.get(e["t"], 0)
                 if e["op"] == "PREPARE" and (e["b"], e["bstream"]) in prepmap:
                     r = prepmap.pop((e["b"], e["bstream"]))
+                elif e["op"] == "PREPARE" and not r and prepmap:
+                    # a re-PREPARE (no client request carries it) on a (connection, stream) that the proxy did not register
+                    # for one, while re-PREPAREs ARE registered elsewhere: it went out under a stream id that is not its own
+                    out.append({"ev": "StrayPrepare", "b": e["b"], "bs": e["bstream"],
+                                "registered": sorted("%s/%s" % k for k in prepmap)[:6]})
+                    continue
                 taken.add((e["b"], e["bstream"]))
                 out.append({"ev": "Take", "r": r, "h": hostmap.get(e["host"], e["host"]), "b": e["b"],
                             "bs": e["bstream"], "op": e["op"]})
